@@ -59,9 +59,17 @@ def build_env(cls: dict, tables: dict, time_limit: int = 3):
             env = TimeLimit(env, time_limit)
         elif w == "Identity":
             env = Identity(env)
+        elif w == "RescaleAction":
+            from lerax.wrapper import RescaleAction
+
+            env = RescaleAction(env, jnp.array(-2.0), jnp.array(2.0))   # dyadic: the affine map is exact in float32
         else:
             raise ValueError(w)
     return env
+
+
+def outer_bounds(cls: dict):
+    return (-2.0, 2.0) if "RescaleAction" in cls.get("stack", []) else None
 
 
 def replace_inner(env, new_inner):
@@ -270,7 +278,7 @@ class Runner:
         if self._want_log:
             cb.recorder.clear()
         self._cur_obs = np.asarray(plan["world"]["obs"])
-        mdp = RefMDP(self.kind, self.comps, plan["world"], *box_bounds(self.cls), time_limit=int(kn["time_limit"]) if self.has_tl else None)
+        mdp = RefMDP(self.kind, self.comps, plan["world"], *box_bounds(self.cls), time_limit=int(kn["time_limit"]) if self.has_tl else None, outer=outer_bounds(self.cls))
         pol = RefTablePolicy(self.kind, self.comps, plan["policy"])
         gamma, lam, alpha = float(kn["gamma"]), float(kn["lam"]), float(kn["alpha"])
         faults = {f["at_op"]: f for f in plan.get("faults", [])}
